@@ -137,6 +137,13 @@ pub mod implementations {
             ("*", ..) => left * right,
             ("/", ..) => left / right,
             ("%", ..) => left % right,
+            // only numbers are ordered: `PartialOrd::lt` and its siblings cannot report an error, they
+            // panic when given anything else (a `nil`, for example)
+            (">" | "<" | ">=" | "<=", l, r) if !(l.is_numeric() && r.is_numeric()) => bail!(
+                "<{:?} {symbols} {:?}> is invalid. (valid ops are: <num {symbols} num>)",
+                l.ty(),
+                r.ty()
+            ),
             (">", ..) => Ok(bool!(left > right)),
             ("<", ..) => Ok(bool!(left < right)),
             (">=", ..) => Ok(bool!(left >= right)),
